@@ -237,11 +237,12 @@ const (
 	EDiv                       // integer division / remainder, or float division feeding an int conversion
 	EConvert                   // float -> int conversion site (E4 obligation)
 	EClear                     // clear(slice) builtin: zero [off, off+len)
+	ENarrow                    // integer -> integer conversion that cannot represent every source value (rule I0)
 )
 
 var effNames = map[EffKind]string{EStoreElem: "store-elem", EStoreField: "store-field", ECopy: "copy", EGrow: "grow",
 	ECall: "call", EAlloc: "alloc", ESetCap: "setcap", EHazard: "alias-hazard", EUndecided: "undecided", EIndex: "index", EDiv: "div",
-	EConvert: "convert", EClear: "clear"}
+	EConvert: "convert", EClear: "clear", ENarrow: "narrow"}
 
 type Effect struct {
 	Kind   EffKind
